@@ -353,7 +353,9 @@ def bounded_run(ctx, module, params=None, timeout=None, jit=False):
         if len(ctx.samples) < 4:
             ctx.samples.append(smp)
     for n in res.get("notes", []):
-        ctx.add_assumption(n)
+        # notes of a bounded module are statements about what its run covered or excluded; the evidence schema wants
+        # strings, some modules report structured notes
+        ctx.add_assumption(n if isinstance(n, str) else f"{module} note: " + json.dumps(n, default=str)[:1500])
     return res
 
 
@@ -479,7 +481,8 @@ def write_evidence(ctx, plan, wall, violations, unknowns, known_hits, proved):
         "repo": ctx.repo,
     }
     ev = {"property_id": ctx.pid, "tier": ctx.tier, "seed": ctx.seed, "level": level, "coverage": cov,
-          "assumptions": ctx.assumptions + plan.get("assumptions", []), "wall_s": round(wall, 2),
+          "assumptions": [a if isinstance(a, str) else json.dumps(a, default=str)[:1500]
+                          for a in ctx.assumptions + plan.get("assumptions", [])], "wall_s": round(wall, 2),
           "violations": len(violations)}
     os.makedirs(os.path.join(OUT, "evidence"), exist_ok=True)
     with open(os.path.join(OUT, "evidence", f"{ctx.pid}.json"), "w") as f:
